@@ -19,11 +19,11 @@ PURE_RULE = ("; `gkh pure` calls the side-effect-free functions of package def (
 
 GOLEAN_RULE = ("; `gkh golean` re-translates the decision logic of package def, internal/sortable_task, the whole "
                "MutationHookTimer (repository/mution_hook_timer.go), the observable wrapper (repository/repository.go), the in-memory repository's AddTask / GetById / UpdateById / Cancel / "
-               "MarkAsDispatched / MarkAsDone / GetNext / Find / Save / Load, the cron store's timer functions, the scheduler's Step / Retry / dispatchTask (as drivers of the World automaton) and the mutator decoders from the CURRENT "
+               "MarkAsDispatched / MarkAsDone / GetNext / Find / Save / Load, the cron store's timer functions, the scheduler's Step / Retry / dispatchTask (as drivers of the World automaton), volatileTaskRepo, the SQL (ent) repository's AddTask / GetById / UpdateById / Cancel / MarkAsDispatched / MarkAsDone (as issuers of the statements of the two-statement protocol M13) and the mutator decoders from the CURRENT "
                "Go sources into Lean (lean/Gk/Gen/*.lean, go/ast, no skipping: an unsupported construct is a broken tie, DIFF "
                "golean) before the audit, and the tie theorems (kind `tie`, Gk/Props/Tie*.lean) prove for all inputs that "
                "each generated definition equals the hand-written model definition the property theorems are about")
-GOLEAN_TB = ["the Go-to-Lean translator harness/cmd/gkh/golean.go (go/ast, ~900 lines) and the runtime vocabulary "
+GOLEAN_TB = ["the Go-to-Lean translator harness/cmd/gkh/golean.go (go/ast, ~2,500 lines) and the runtime vocabulary "
              "lean/Gk/GoRt.lean, which states the assumed behaviour of und/option, time.Time comparison / Truncate, strings, "
              "maps and slices; Go `int` is modelled as an unbounded integer (the translated functions only compare)"]
 
@@ -161,16 +161,18 @@ CHECKS = {
         "runs": lambda tier: [{"args": ["srcfacts", "-facts", "sql"]}] + [{"args": ["repo", "-impl", impl, "-profile", "recover", "-n",
                                         str({"quick": 300, "thorough": 5000, "widen": 2000}[tier]), "-len", "40"]}
                               for impl in ("ent", "entfile")] +
-                             [{"args": ["crash", "-n", str({"quick": 2, "thorough": 300, "widen": 20}[tier]), "-len", "30",
-                                        "-random", "20"], "seed_off": 5},
+                             [{"args": ["crash", "-n", str({"quick": 10, "thorough": 400, "widen": 60}[tier]), "-len", "30",
+                                        "-random", "20", "-stmts", "60"], "seed_off": 5},
                               {"args": ["pipe", "-n", str({"quick": 60, "thorough": 6000, "widen": 600}[tier]), "-tasks", "25"],
                                "seed_off": 6}],
         "rule": "lifecycle histories on ent/SQLite (in-memory and file-backed) interleaved with RevertDispatched / "
                 "CancelDispatched / DeleteEnded, compared with Spec.Repo after every op (result, full dump, GetNext); "
                 "the reverted tasks' later behaviour is checked by the C01/C12/C13 monitors on the same traces; crash runs: a "
                 "child process executes a generated mutation workload on a SQLite file acknowledging every completed "
-                "operation on a pipe and is SIGKILLed after every k-th acknowledgement and at random instants inside "
-                "operations; the parent reopens the file and the driver demands the dump to equal the model after the "
+                "operation on a pipe and is SIGKILLed after every k-th acknowledgement, at random instants inside "
+                "operations, and — running on the statement-gating SQL driver — kills ITSELF at exact statement boundaries "
+                "(before / after every Exec, Query and Commit the repository issues; every boundary inside a RevertDispatched / "
+                "CancelDispatched / DeleteEnded first, then up to 60 per workload); the parent reopens the file and the driver demands the dump to equal the model after the "
                 "acknowledged operations, with the one in flight fully applied or absent, then runs Revert/Cancel"
                 "Dispatched and a continued workload against the specification; `gkh srcfacts -facts sql` re-extracts from the "
                 "current sources that every mutation method of the ent repository has exactly one write-statement call "
@@ -191,7 +193,8 @@ CHECKS = {
         "assumptions": REPO_ASSUME,
         "extra_mon": {"C01": r"^(rev|cdp) ", "C12": r"^(rev|cdp) "},
         "claim": "PARTIAL: the recovery logic is proved and tied; durability is sampled by SIGKILL runs at every operation "
-                 "boundary and at random instants (process kill only: no power-loss / fsync model).",
+                 "boundary, at statement boundaries inside operations and at random instants (process kill only: no "
+                 "power-loss / fsync model).",
     },
     "C15": {
         "family": "cron", "level": "proof", "modules": ["Gk.Props.C15"], "components": ["cron"],
@@ -377,5 +380,5 @@ def _with_golean(cfg):
     cfg["trusted_base"] = cfg["trusted_base"] + GOLEAN_TB
 
 
-for _p in ("C01", "C02", "C03", "C04", "C05", "C06", "C07", "C11", "C12", "C14", "C17", "C18", "C20"):
+for _p in ("C01", "C02", "C03", "C04", "C05", "C06", "C07", "C10", "C11", "C12", "C14", "C17", "C18", "C20"):
     _with_golean(CHECKS[_p])
